@@ -7,5 +7,5 @@ N="$1"; D=/tmp/mut_$N
 git -C /repo worktree remove --force "$D" 2>/dev/null || true
 rm -rf "$D"
 git -C /repo worktree add --detach "$D" HEAD >/dev/null
-cp -r /repo/target "$D/target"
+# (the build output of /repo is not copied: it is large and cargo would rebuild the workspace crates anyway)
 echo "$D"
